@@ -118,6 +118,19 @@ theorem C16_tie_index_functions :
     Gen.calls_share_IsAttesting = ["HasBeaconMetadata", "IsAttesting"] ∧
     Gen.calls_ctrl_StartValidators = ["ByNotLiquidated", "BelongsToOperator", "setupValidators"] := by decide
 
+/-- glue the duty handlers depend on, outside the event-level model (exercised in real time by the harness's `glue` mode):
+    * `slotTicker.Next()` drains the timer channel when `Stop()` reports that the timer already fired (`if !s.timer.Stop()`
+      followed by a receive `u<-`; no bare `s.timer.Stop()` statement), re-arms it and never repeats a slot;
+    * `StartValidators` closes `committeeValidatorSetup` only AFTER `setupValidators` on the path that sets validators up
+      (the two earlier `close` calls are the no-shares and exporter returns);
+    * the metadata loop selects every non-liquidated share that is new or whose metadata is older than the update interval —
+      there is no branch that skips shares which are already attesting. -/
+theorem C16_tie_glue :
+    Gen.has_slotticker_Next = [true, true, true, true, true, false] ∧
+    noStr Gen.lits_slotticker_Next = ["<", "0", "u!", "u<-", "+", "/", "1", "<=", "+", "1", "*"] ∧
+    Gen.calls_ctrl_StartValidators_order = ["close", "close", "setupValidators", "close", "startValidators"] ∧
+    Gen.has_ctrl_MetaDataLoop = [true, true, true, true, true, true, false] := by decide
+
 /-! ## at most once -/
 
 /-- No (slot, validator) pair is dispatched twice in a run — every handler, every network, every event list whose
